@@ -33,6 +33,10 @@ Inductive case :=
 | KLqlSelf (k : nat) (c : civil) (now : Z * Z * Z) (lit : bytes) (obs : option Z)
 (* a relative literal: time.Now() was in [lo, hi] (Unix nanoseconds) around the call that returned obs *)
 | KRel (lit : bytes) (lo hi obs slack : Z)
+(* a named constant (minute / hour / day / week, any case, blanks around): time.Now() was in [lo, hi] around the call that returned obs *)
+| KConst (lit : bytes) (lo hi obs : Z)
+(* date.NewDefaultParser(usr...): the user's formats are asked first, then the collector's list *)
+| KUser (usr : list bytes) (now : Z * Z * Z) (text : bytes) (obs : option (nat * (Z * Z)))
 (* a file of lines read through the collector's line parser (default format list): the date of every record, None = zero time *)
 | KLines (now : Z * Z * Z) (lines : list bytes) (obs : list (option (Z * Z))).
 
@@ -71,6 +75,13 @@ Definition check (c : case) : bool :=
       | LRel d => (lo - d - slack <=? obs) && (obs <=? hi - d + slack)
       | _ => false
       end
+  | KConst lit lo hi obs =>
+      match lql_parse (0, 0, 0) lql_c lit with
+      | LConst k => (const_lo k lo <=? obs) && (obs <=? const_hi k hi)
+      | _ => false
+      end
+  | KUser usr now text obs =>
+      option_eqb res_eqb (parse_all now (map (compile_with terms_table) usr ++ known_c) text) obs
   | KLines now lines obs => list_eqb (option_eqb zz_eqb) (snd (lp_run now known_c lp_init lines)) obs
   end.
 
